@@ -273,6 +273,50 @@ def select(ctx, behs, n):
     return chosen[:max(n, sum(want.values()))], {k: len(v) for k, v in by.items()}   # never drop a stratum's minimum
 
 
+def mesh_programs(ctx):
+    """GROWTH (every command-line tool is an action of the command state machine):
+    mesh-to-precomputed and link-mesh-fragments interleaved with the volume
+    commands.  Witness programs exported by Gen_Pipeline over the mesh alphabet
+    (Gen_Pipeline_mesh*.cfg), one per (last command, its class, exit status,
+    repeated) among the programs that contain a mesh command, run as real
+    sub-processes on small label volumes with GIfTI surfaces and CSV label
+    tables.  C19's exit-0 clause is a verdict; what only the tool help texts
+    promise is DRIFT (growth:*)."""
+    recs = ctx.export("Gen_Pipeline", ctx.pick("Gen_Pipeline_mesh_quick", "Gen_Pipeline_mesh"), workers=1)
+    behs = [json.loads(r[1]) for r in recs]
+    behs = [b for b in behs if any(s.startswith(("Mesh|", "Link|")) for s in b["prog"])]
+    behs.sort(key=lambda b: json.dumps(b["prog"]))
+    ctx.rng.shuffle(behs)
+    by = {}
+    for b in behs:
+        by.setdefault((b["op"], b["cls"], b["ex"], b["rep"]), []).append(b)
+    n = ctx.pick(30, 240)
+    chosen = []
+    keys = sorted(by, key=lambda k: (k[0] not in ("Mesh", "Link"), json.dumps(k)))
+    i = 0
+    while len(chosen) < n and any(by[k] for k in keys):
+        k = keys[i % len(keys)]
+        if by[k]:
+            chosen.append(by[k].pop())
+        i += 1
+    ctx.notes["mesh_programs_exported"] = len(behs)
+    ctx.notes["mesh_strata"] = len(keys)
+    progs = []
+    for t, b in enumerate(chosen):
+        cmds = [pd.parse_cmd(s) for s in b["prog"]]
+        sharded = any(c["sh"] == "s110" for c in cmds)
+        shape = ([ctx.rng.randint(257, 290), 3, 2] if t % 3 else [ctx.rng.randint(130, 200), 4, 3])
+        voxel = [1.0, 1.0, 1.0] if sharded or t % 2 else [1.0, 2.0, 4.0]
+        vol = {"shape": shape, "voxel": voxel, "dtype": ["uint8", "uint32", "uint16"][t % 3], "kind": "labels",
+               "perfect": True, "nall": min(3, pd.n_levels(shape, voxel))}
+        progs.append({"vol": vol, "cmds": cmds,
+                      "lay": {"A": ctx.rng.choice(list(pd.LAYOUTS)), "B": ctx.rng.choice(list(pd.LAYOUTS))},
+                      "explicit": ctx.rng.random() < 0.4, "seed": ctx.rng.randrange(1 << 30),
+                      "docs_shflag": ctx.rng.random() < 0.6, "shard_enc": ctx.rng.choice(["gzip", "raw"]),
+                      "feat": {k: b[k] for k in ("pair", "rep", "op", "ex", "cls")}})
+    return progs
+
+
 def directed_programs(ctx):
     """Option sets / input classes the exported alphabet does not span:
       - sharded datasets whose chunk grid is NOT a power of two on at least two axes, several
@@ -433,10 +477,12 @@ def run_mc(ctx):
         ctx.mc("MC_Pipeline", "MC_Pipeline", workers=16, coverage=True)
         ctx.mc("MC_Pipeline", "MC_Pipeline_all", workers=16)
     # non-vacuity: the model must tell the deviating designs apart
+    ctx.mc("MC_Pipeline", ctx.pick("MC_Pipeline_mesh_quick", "MC_Pipeline_mesh"), workers=16)
     for cfg, inv in (("MC_Pipeline_devMethod", "AllInOneEqualsSteps"),
-                     ("MC_Pipeline_devLayout", "SuccessMeansComplete")):
+                     ("MC_Pipeline_devLayout", "SuccessMeansComplete"),
+                     ("MC_Pipeline_devMesh", "")):
         bad = tlc.model_check("MC_Pipeline", cfg, workers=8)
-        if bad["ok"] or inv not in bad["invariant_violated"]:
+        if bad["ok"] or (inv and inv not in bad["invariant_violated"]):
             raise tlc.MachineryError("deviation switch %s did not violate %s (vacuous model)" % (cfg, inv))
         ctx.notes["switch_" + cfg] = bad["invariant_violated"]
 
@@ -484,7 +530,9 @@ def run(ctx):
     ctx.notes["obstructed_destination_programs"] = len(env_progs)
     directed = directed_programs(ctx)
     ctx.notes["directed_programs"] = len(directed)
-    progs += env_progs + directed
+    mesh = mesh_programs(ctx)
+    ctx.notes["mesh_programs"] = len(mesh)
+    progs += env_progs + directed + mesh
     res = pc.run_and_judge(ctx, progs, workers=12, chunk=120, label="gen")
     agree = 0
     for p, case, (st, clause, pos) in res:
